@@ -119,7 +119,7 @@ func startsAlnum(x Inline) bool {
 	switch v := x.(type) {
 	case Text:
 		return true
-	case Ent, Esc, Code, Link, Image, Auto, Mail, Raw, Emph, Strong:
+	case Ent, Esc, Code, Link, Image, Auto, Mail, Raw, Emph, Strong, NotLink:
 		_ = v
 		return false
 	}
@@ -171,6 +171,9 @@ func (g *G) inlines(c ictx, max int) []Inline {
 			if l, ok := prev.(Link); ok && l.Form != 0 {
 				// after a reference-style link the next char must not be '[' or '('
 				if _, ok := x.(Link); ok {
+					needSpace = true
+				}
+				if _, ok := x.(NotLink); ok {
 					needSpace = true
 				}
 			}
@@ -291,6 +294,14 @@ func (g *G) inline(c ictx, first bool) Inline {
 			r := raws[g.s.Intn(len(raws))]
 			if c.oneLine && strings.Contains(r, "\n") {
 				continue
+			}
+			if !c.inLink && g.s.Intn(4) == 0 {
+				// link look-alikes just outside the rules ([zzn] is never defined): an unescaped '<' inside a <...>
+				// destination, a space in a bare destination, text after the title, a space before '(', text after
+				// a <...> destination, unbalanced parentheses, an unclosed title, an unclosed <...> destination
+				nl := notLinks[g.s.Intn(len(notLinks))]
+				notLinkCount++
+				return NotLink{nl[0], nl[1]}
 			}
 			return Raw{r}
 		case 13:
@@ -521,7 +532,13 @@ func caseVariant(s Src, lab string) string {
 
 // ---------------- blocks ----------------
 
-var labelNLCount, nearMissCount, longTextCount, emptyItemCount int
+var labelNLCount, nearMissCount, longTextCount, emptyItemCount, notLinkCount int
+
+var notLinks = [][2]string{
+	{"[zzn](<x<y>)", "[zzn](&lt;x<y>)"}, {"![zzn](<x<y>)", "![zzn](&lt;x<y>)"}, {"[zzn](a b)", "[zzn](a b)"},
+	{"[zzn](/u \"t\" x)", "[zzn](/u &quot;t&quot; x)"}, {"[zzn] (/u)", "[zzn] (/u)"}, {"[zzn](<b>c)", "[zzn](<b>c)"},
+	{"[zzn](a(b)", "[zzn](a(b)"}, {"[zzn](/u 't)", "[zzn](/u 't)"}, {"[zzn](<a b)", "[zzn](&lt;a b)"}, {"[zzn](<x\\<y<z>)", "[zzn](&lt;x&lt;y<z>)"},
+}
 var avoidWSOnly = true
 var excludedF19 int
 
